@@ -149,6 +149,21 @@ def step (σ : St) (toks : List String) : St × String :=
       | none => (σ, "err-bootstrap")
       | some db => ({ σ with db := db, st := some st' }, s!"ok base={st.lastBlockHeight}")
     | none => (σ, "bad-op")
+  | "rpcvals" :: rest =>
+    -- the /validators RPC; `lag` only configures the Go side's stale consensus state
+    match σ.st, kv rest "h", (kv rest "sync").bind String.toNat?, (kv rest "lag").bind String.toNat? with
+    | some st, some hs, some sync, some _ =>
+      let h? : Option (Option Int) := if hs = "-" then some none else hs.toInt?.map some
+      match h? with
+      | none => (σ, "bad-op")
+      | some h =>
+        if sync > 1 then (σ, "bad-op") else
+        match rpcValidators σ.db st (sync = 1) h with
+        | none => (σ, "err-height")
+        | some (x, .ok s) => (σ, s!"ok h={x} " ++ showVals s.vals)
+        | some (_, .panic) => (σ, "panic")
+        | some (_, _) => (σ, "err-load")
+    | _, _, _, _ => (σ, "bad-op")
   | ["rollback"] =>
     match σ.st with
     | some st =>
